@@ -142,3 +142,25 @@ def is_log_error_block(f, b):
 def public_api(P):
     """exported functions (default visibility) — exactly PIXMAN_EXPORT under -fvisibility=hidden"""
     return [f for f in P.functions() if f.exported]
+
+
+def value_arg_roots(f, o, limit=200):
+    """parameters a (non-pointer) value is computed from: backward slice through arithmetic, casts, phi and select; a load contributes
+    the parameters its address derives from"""
+    out = set(); seen = set(); work = [o]
+    while work and limit > 0:
+        limit -= 1
+        o = work.pop()
+        if o[0] == 'a':
+            out.add(('arg', o[1])); continue
+        if o[0] != 'v' or o[1] in seen:
+            continue
+        seen.add(o[1])
+        x = f.by_id[o[1]]
+        if x.op == 'load':
+            out |= {r for r in roots(f, x.a[0]) if r[0] in ('arg', 'global')}
+            continue
+        if x.op == 'call':
+            out.add(('call', x.callee)); continue
+        work.extend(a for a in x.a if a and a[0] in ('v', 'a'))
+    return out
